@@ -21,5 +21,8 @@ CHECKS = {
     "C14": dict(level="model_checking", technique=SE + "; ODE solutions are uninterpreted flow functions",
                 text="make_protocol, simulate_protocol and simulate_protocol_time_course run on symbolic step values, requested time points and (for simulate_protocol) a symbolic earlier end; z3 proves per path that integrator call k covers exactly step k's interval with step k's values as flow parameters, that the index is {start} ∪ requested points inside ∪ boundaries, each once and increasing, and that fluxes inside a step use that step's values.",
                 note=NOTE + " Durations are concrete dyadic numbers (pandas Timedelta is C-level)."),
+    "C09": dict(level="model_checking", technique=SE + "; pool scheduling order is an explicit selector explored exhaustively, ODE solutions are uninterpreted flows",
+                text="scan.* and mc.* run on scan tables whose cells are z3 terms, sequentially and through a pebble stub that executes the tasks on deep copies in every order; per path z3 proves that variables and fluxes of every row equal the flow of a fresh model with exactly that row's values, under the row's own label and in input order; a failing row yields NaN at its own position.",
+                note=NOTE + " The pool stub implements pebble's documented map/schedule contract; OS-level process behaviour and pickling are outside."),
 }
 NOT_APPLICABLE = {}
